@@ -8,7 +8,10 @@ import Rngs.Model.Xoshiro
 import Rngs.Model.XorShift
 import Rngs.Model.Jitter
 import Rngs.Model.Hc128
+import Rngs.Model.Isaac
 import Rngs.Lib.XorLinear
+import Rngs.Lib.ExtTieBlock
+import Rngs.Lib.ExtTieShapes
 namespace Rngs
 
 /-- step functions (`next_u32`, `next_u64`): definitional unfolding first -/
@@ -53,5 +56,29 @@ macro "ext_tie_lfsr" f:ident : tactic =>
     | (funext data time
        simp only [$f:ident, Jitter.lfsr, foldl_range'_one]
        rfl))
+
+/-! ### rand_hc / rand_isaac (the larger proofs are scripts emitted by tools/extract_units.py; lemmas: ExtTieBlock, ExtTieShapes) -/
+
+/-- `step_p`, `step_q`: the translation (slice views resolved to `self.t` at index + offset) unfolds to the model -/
+macro "ext_tie_hc_step" f:ident : tactic =>
+  `(tactic| first
+    | (intros; rfl)
+    | (intros
+       simp only [$f:ident, Hc128.stepP, Hc128.stepQ, Nat.add_assoc, Nat.add_comm, Nat.add_left_comm, BitVec.add_assoc,
+         BitVec.add_comm, BitVec.add_left_comm, BitVec.xor_comm]))
+
+/-- ISAAC's nested `rngstep`, `mix` with their `&mut` parameters returned as a tuple -/
+macro "ext_tie_isaac_step" f:ident : tactic =>
+  `(tactic| first
+    | (intros; rfl)
+    | (intros
+       simp only [$f:ident, Isaac.rngstep, Isaac.ind, Isaac.params32, Isaac.params64, BitVec.add_assoc, BitVec.add_comm,
+         BitVec.add_left_comm, BitVec.xor_comm]))
+
+/-- `ind`: `Wrapping >> usize` masks the amount, the model shifts by it: equal for amounts below the width -/
+macro "ext_tie_isaac_ind" f:ident : tactic =>
+  `(tactic| (intro mem v amount h
+             simp only [$f:ident, Isaac.ind, Nat.mod_eq_of_lt h]
+             first | rfl | simp only [Isaac.RAND_SIZE, Isaac.RAND_SIZE_LEN, Nat.reducePow]))
 
 end Rngs
